@@ -1,6 +1,517 @@
-"""Native replay of per-program counterexamples on the real generated C (placeholder: not built yet -- failed
-obligations are reported with the solver model and the words no-failing-input-found)."""
+"""Native replay for the per-program checks (C01/C02/C04/C05-D): when an obligation of a generated codec is not
+discharged, the REAL generated C of that type (from the same rendering the VCs came from) is compiled with ASan/UBSan and
+run on a bounded set of inputs next to an independent bit-level reference codec written from the Cyphal specification
+(this file; it shares no code with vk/spec.py).  A disagreement or a sanitizer report is a replayed failing input; if none
+is found the violation is reported with the words no-failing-input-found.  Bounded, never counted as proved.
+
+Serialization: boundary and pseudo-random objects (all-zero, all-ones, per-field extremes, every array count 0..capacity+1
+where small, every union tag and an invalid one) into exactly-sized heap buffers pre-filled with 0xA5, also undersized.
+Deserialization: pseudo-random and structured byte strings of every length 0..max+2 (serialised objects, truncations,
+bit flips) into a poisoned object; the outcome is compared field by field (bit patterns), with the consumed size and error.
+"""
+import pathlib
+import random
+import struct
+import subprocess
+import typing
+
+import pydsdl
+
+ERR = {"arg": 2, "small": 3, "len": 10, "tag": 11, "delim": 12}
 
 
-def witness(function, type_name, workdir, model):
+def cname(t) -> str:
+    if getattr(t, "has_parent_service", False):
+        base = t.full_namespace.replace(".", "_") + f"_{t.short_name}"
+    else:
+        base = t.full_name.replace(".", "_")
+    return f"{base}_{t.version.major}_{t.version.minor}"
+
+
+# ---------------------------------------------------------------------------------------------------------------------
+# reference codec on Python values: int / bool / float-bit-pattern leaves, lists, {"_tag_": k, "v": value} for unions,
+# dicts for structures
+# ---------------------------------------------------------------------------------------------------------------------
+class Bits:
+    def __init__(self):
+        self.b: typing.List[int] = []
+
+    def put(self, value: int, n: int):
+        for i in range(n):
+            self.b.append((value >> i) & 1)
+
+    def align(self, a: int):
+        while len(self.b) % a:
+            self.b.append(0)
+
+    def bytes(self) -> bytes:
+        bits = self.b + [0] * (-len(self.b) % 8)
+        return bytes(sum(bits[i + j] << j for j in range(8)) for i in range(0, len(bits), 8))
+
+
+def f16_bits(x: float, saturated: bool) -> int:
+    import math
+    if math.isnan(x):
+        return 0x7E00
+    if math.isinf(x):
+        return 0x7C00 | (0x8000 if x < 0 else 0)
+    if saturated and abs(x) > 65504.0:
+        x = math.copysign(65504.0, x)
+    try:
+        return struct.unpack("<H", struct.pack("<e", x))[0]
+    except OverflowError:
+        return 0x7C00 | (0x8000 if x < 0 else 0)
+
+
+class EncError(Exception):
+    def __init__(self, code):
+        self.code = code
+
+
+def enc_prim(out: Bits, dt, v):
+    if isinstance(dt, pydsdl.BooleanType):
+        out.put(1 if v else 0, 1)
+    elif isinstance(dt, pydsdl.IntegerType):
+        n = dt.bit_length
+        lo, hi = int(dt.inclusive_value_range.min), int(dt.inclusive_value_range.max)
+        if dt.cast_mode == dt.CastMode.SATURATED:
+            v = min(max(v, lo), hi)
+        out.put(v & ((1 << n) - 1), n)
+    elif isinstance(dt, pydsdl.FloatType):
+        # v is the bit pattern of the C member (float for 16/32, double for 64)
+        if dt.bit_length == 64:
+            out.put(v, 64)
+        elif dt.bit_length == 32:
+            x = struct.unpack("<f", struct.pack("<I", v))[0]
+            import math
+            if dt.cast_mode == dt.CastMode.SATURATED and math.isfinite(x):
+                pass  # a float member holds only float values: nothing to saturate
+            out.put(v, 32)
+        else:
+            x = struct.unpack("<f", struct.pack("<I", v))[0]
+            out.put(f16_bits(x, dt.cast_mode == dt.CastMode.SATURATED), 16)
+    elif isinstance(dt, pydsdl.VoidType):
+        out.put(0, dt.bit_length)
+    else:
+        raise TypeError(dt)
+
+
+def enc(out: Bits, dt, v, top=False):
+    if isinstance(dt, pydsdl.PrimitiveType) or isinstance(dt, pydsdl.VoidType):
+        enc_prim(out, dt, v)
+    elif isinstance(dt, pydsdl.FixedLengthArrayType):
+        out.align(dt.alignment_requirement)
+        for x in v:
+            enc(out, dt.element_type, x)
+    elif isinstance(dt, pydsdl.VariableLengthArrayType):
+        out.align(dt.alignment_requirement)
+        cnt = v["count"]
+        if cnt > dt.capacity:
+            raise EncError(ERR["len"])
+        out.put(cnt, dt.length_field_type.bit_length)
+        for x in v["elements"][:cnt]:
+            enc(out, dt.element_type, x)
+    elif isinstance(dt, pydsdl.CompositeType):
+        out.align(dt.alignment_requirement)
+        inner = Bits()
+        enc_composite(inner, dt, v)
+        if isinstance(dt, pydsdl.DelimitedType) and not top:
+            payload = inner.bytes()
+            out.put(len(payload), 32)
+            for byte in payload:
+                out.put(byte, 8)
+        else:
+            out.b += inner.b
+    else:
+        raise TypeError(dt)
+
+
+def enc_composite(out: Bits, t, v):
+    inner = t.inner_type
+    if isinstance(inner, pydsdl.UnionType):
+        k = v["_tag_"]
+        if k >= len(inner.fields):
+            raise EncError(ERR["tag"])
+        out.put(k, inner.tag_field_type.bit_length)
+        enc(out, inner.fields[k].data_type, v["v"])
+    else:
+        for f in inner.fields:
+            if isinstance(f, pydsdl.PaddingField):
+                out.align(f.data_type.alignment_requirement)
+                out.put(0, f.data_type.bit_length)
+            else:
+                out.align(f.data_type.alignment_requirement)
+                enc(out, f.data_type, v[f.name])
+    out.align(8)
+
+
+def serialize_ref(t, v, capacity: int):
+    mb = max(t.inner_type.bit_length_set)
+    if capacity * 8 < mb:
+        return -ERR["small"], None
+    out = Bits()
+    try:
+        enc_composite(out, t, v)
+    except EncError as e:
+        return -e.code, None
+    return 0, out.bytes()
+
+
+# decoding ------------------------------------------------------------------------------------------------------------
+class Src:
+    def __init__(self, data: bytes, limit_bits: int):
+        self.d, self.lim = data, limit_bits
+
+    def get(self, off: int, n: int) -> int:
+        v = 0
+        for i in range(n):
+            p = off + i
+            if p < self.lim and p // 8 < len(self.d):
+                v |= ((self.d[p // 8] >> (p % 8)) & 1) << i
+        return v
+
+
+class DecError(Exception):
+    def __init__(self, code):
+        self.code = code
+
+
+def sx(v, n):
+    return v - (1 << n) if n and v >> (n - 1) else v
+
+
+def dec(src: Src, off: int, dt):
+    if isinstance(dt, pydsdl.BooleanType):
+        return src.get(off, 1), off + 1
+    if isinstance(dt, pydsdl.UnsignedIntegerType):
+        return src.get(off, dt.bit_length), off + dt.bit_length
+    if isinstance(dt, pydsdl.SignedIntegerType):
+        return sx(src.get(off, dt.bit_length), dt.bit_length), off + dt.bit_length
+    if isinstance(dt, pydsdl.FloatType):
+        raw = src.get(off, dt.bit_length)
+        if dt.bit_length == 16:
+            x = struct.unpack("<e", struct.pack("<H", raw))[0]
+            raw = struct.unpack("<I", struct.pack("<f", x))[0]
+        return ("f", raw, dt.bit_length), off + dt.bit_length
+    if isinstance(dt, pydsdl.VoidType):
+        return None, off + dt.bit_length
+    if isinstance(dt, pydsdl.FixedLengthArrayType):
+        off += -off % dt.alignment_requirement
+        out = []
+        for _ in range(dt.capacity):
+            x, off = dec(src, off, dt.element_type)
+            out.append(x)
+        return out, off
+    if isinstance(dt, pydsdl.VariableLengthArrayType):
+        off += -off % dt.alignment_requirement
+        cnt = src.get(off, dt.length_field_type.bit_length)
+        off += dt.length_field_type.bit_length
+        if cnt > dt.capacity:
+            raise DecError(ERR["len"])
+        out = []
+        for _ in range(cnt):
+            x, off = dec(src, off, dt.element_type)
+            out.append(x)
+        return {"count": cnt, "elements": out}, off
+    if isinstance(dt, pydsdl.CompositeType):
+        off += -off % dt.alignment_requirement
+        if isinstance(dt, pydsdl.DelimitedType):
+            hdr = src.get(off, 32)
+            off += 32
+            remaining = max(0, (min(src.lim, len(src.d) * 8) - min(off, min(src.lim, len(src.d) * 8))) // 8)
+            if hdr > remaining:
+                raise DecError(ERR["delim"])
+            sub = Src(src.d, min(src.lim, off + 8 * hdr))
+            v, _ = dec_composite(sub, off, dt)
+            return v, off + 8 * hdr
+        return dec_composite(src, off, dt)
+    raise TypeError(dt)
+
+
+def dec_composite(src: Src, off: int, t):
+    inner = t.inner_type
+    if isinstance(inner, pydsdl.UnionType):
+        k = src.get(off, inner.tag_field_type.bit_length)
+        off += inner.tag_field_type.bit_length
+        if k >= len(inner.fields):
+            raise DecError(ERR["tag"])
+        v, off = dec(src, off, inner.fields[k].data_type)
+        out: typing.Any = {"_tag_": k, "v": v}
+    else:
+        out = {}
+        for f in inner.fields:
+            off += -off % f.data_type.alignment_requirement
+            v, off = dec(src, off, f.data_type)
+            if not isinstance(f, pydsdl.PaddingField):
+                out[f.name] = v
+    off += -off % 8
+    return out, off
+
+
+def deserialize_ref(t, data: bytes, size: int):
+    src = Src(data[:size], size * 8)
+    try:
+        v, end = dec_composite(src, 0, t)
+    except DecError as e:
+        return -e.code, None, None
+    return 0, v, min(end, size * 8) // 8
+
+
+# ---------------------------------------------------------------------------------------------------------------------
+# C side: member access paths, object construction and dumping
+# ---------------------------------------------------------------------------------------------------------------------
+def cid(lang, name: str) -> str:
+    return lang.filter_id(name, "any")
+
+
+def set_stmts(lang, dt, ref: str, v, out: typing.List[str]):
+    if isinstance(dt, pydsdl.BooleanType):
+        out.append(f"{ref} = {1 if v else 0};")
+    elif isinstance(dt, pydsdl.IntegerType):
+        out.append(f"{ref} = ({'int' if isinstance(dt, pydsdl.SignedIntegerType) else 'uint'}{8 if dt.bit_length <= 8 else 16 if dt.bit_length <= 16 else 32 if dt.bit_length <= 32 else 64}_t) {v}{'LL' if v < 0 else 'ULL'};")
+    elif isinstance(dt, pydsdl.FloatType):
+        if dt.bit_length == 64:
+            out.append(f"{{ uint64_t b_ = {v}ULL; memcpy(&{ref}, &b_, 8); }}")
+        else:
+            out.append(f"{{ uint32_t b_ = {v}UL; memcpy(&{ref}, &b_, 4); }}")
+    elif isinstance(dt, pydsdl.FixedLengthArrayType):
+        if isinstance(dt.element_type, pydsdl.BooleanType):
+            for i, x in enumerate(v):
+                if x:
+                    out.append(f"{ref}_bitpacked_[{i // 8}] |= (uint8_t)(1U << {i % 8});")
+        else:
+            for i, x in enumerate(v):
+                set_stmts(lang, dt.element_type, f"{ref}[{i}]", x, out)
+    elif isinstance(dt, pydsdl.VariableLengthArrayType):
+        out.append(f"{ref}.count = {v['count']}U;")
+        for i, x in enumerate(v["elements"][:dt.capacity]):
+            if isinstance(dt.element_type, pydsdl.BooleanType):
+                if x:
+                    out.append(f"{ref}.bitpacked[{i // 8}] |= (uint8_t)(1U << {i % 8});")
+            else:
+                set_stmts(lang, dt.element_type, f"{ref}.elements[{i}]", x, out)
+    elif isinstance(dt, pydsdl.CompositeType):
+        set_composite(lang, dt, ref, v, out)
+
+
+def set_composite(lang, t, ref: str, v, out):
+    inner = t.inner_type
+    if isinstance(inner, pydsdl.UnionType):
+        out.append(f"{ref}._tag_ = {v['_tag_']}U;")
+        if v["_tag_"] < len(inner.fields):
+            f = inner.fields[v["_tag_"]]
+            set_stmts(lang, f.data_type, f"{ref}.{cid(lang, f.name)}", v["v"], out)
+    else:
+        for f in inner.fields_except_padding:
+            set_stmts(lang, f.data_type, f"{ref}.{cid(lang, f.name)}", v[f.name], out)
+
+
+def dump_stmts(lang, dt, ref: str, v, out: typing.List[str]):
+    """print the members that the reference value `v` says are observable, in the reference's own order"""
+    if isinstance(dt, pydsdl.BooleanType):
+        out.append(f'printf("%llu ", (unsigned long long)({ref} ? 1 : 0));')
+    elif isinstance(dt, pydsdl.IntegerType):
+        out.append(f'printf("%lld ", (long long){ref});' if isinstance(dt, pydsdl.SignedIntegerType) else f'printf("%llu ", (unsigned long long){ref});')
+    elif isinstance(dt, pydsdl.FloatType):
+        if dt.bit_length == 64:
+            out.append(f'{{ uint64_t b_; memcpy(&b_, &{ref}, 8); printf("%llu ", (unsigned long long)b_); }}')
+        else:
+            out.append(f'{{ uint32_t b_; memcpy(&b_, &{ref}, 4); printf("%llu ", (unsigned long long)b_); }}')
+    elif isinstance(dt, pydsdl.FixedLengthArrayType):
+        for i in range(dt.capacity):
+            if isinstance(dt.element_type, pydsdl.BooleanType):
+                out.append(f'printf("%u ", (unsigned)(({ref}_bitpacked_[{i // 8}] >> {i % 8}) & 1U));')
+            else:
+                dump_stmts(lang, dt.element_type, f"{ref}[{i}]", v[i], out)
+    elif isinstance(dt, pydsdl.VariableLengthArrayType):
+        out.append(f'printf("%llu ", (unsigned long long){ref}.count);')
+        for i in range(v["count"]):
+            if isinstance(dt.element_type, pydsdl.BooleanType):
+                out.append(f'printf("%u ", (unsigned)(({ref}.bitpacked[{i // 8}] >> {i % 8}) & 1U));')
+            else:
+                dump_stmts(lang, dt.element_type, f"{ref}.elements[{i}]", v["elements"][i], out)
+    elif isinstance(dt, pydsdl.CompositeType):
+        inner = dt.inner_type
+        if isinstance(inner, pydsdl.UnionType):
+            out.append(f'printf("%llu ", (unsigned long long){ref}._tag_);')
+            f = inner.fields[v["_tag_"]]
+            dump_stmts(lang, f.data_type, f"{ref}.{cid(lang, f.name)}", v["v"], out)
+        else:
+            for f in inner.fields_except_padding:
+                dump_stmts(lang, f.data_type, f"{ref}.{cid(lang, f.name)}", v[f.name], out)
+
+
+def flat(dt, v) -> typing.List[int]:
+    if isinstance(dt, (pydsdl.BooleanType, pydsdl.IntegerType)):
+        return [int(v)]
+    if isinstance(dt, pydsdl.FloatType):
+        return [("f64" if dt.bit_length == 64 else "f32", v[1])]
+    if isinstance(dt, pydsdl.FixedLengthArrayType):
+        return [y for x in v for y in flat(dt.element_type, x)]
+    if isinstance(dt, pydsdl.VariableLengthArrayType):
+        return [v["count"]] + [y for x in v["elements"] for y in flat(dt.element_type, x)]
+    if isinstance(dt, pydsdl.CompositeType):
+        inner = dt.inner_type
+        if isinstance(inner, pydsdl.UnionType):
+            return [v["_tag_"]] + flat(inner.fields[v["_tag_"]].data_type, v["v"])
+        return [y for f in inner.fields_except_padding for y in flat(f.data_type, v[f.name])]
+    raise TypeError(dt)
+
+
+# ---------------------------------------------------------------------------------------------------------------------
+# input generation
+# ---------------------------------------------------------------------------------------------------------------------
+def gen_value(rng: random.Random, dt, mode: str):
+    if isinstance(dt, pydsdl.BooleanType):
+        return {"zero": 0, "ones": 1}.get(mode, rng.randint(0, 1))
+    if isinstance(dt, pydsdl.IntegerType):
+        std = 8 if dt.bit_length <= 8 else 16 if dt.bit_length <= 16 else 32 if dt.bit_length <= 32 else 64
+        lo, hi = (-(1 << (std - 1)), (1 << (std - 1)) - 1) if isinstance(dt, pydsdl.SignedIntegerType) else (0, (1 << std) - 1)
+        tlo, thi = int(dt.inclusive_value_range.min), int(dt.inclusive_value_range.max)
+        if mode == "zero":
+            return 0
+        if mode == "ones":
+            return -1 if lo < 0 else hi
+        return rng.choice([lo, hi, tlo, thi, tlo - 1 if tlo - 1 >= lo else tlo, thi + 1 if thi + 1 <= hi else thi, 0, 1, rng.randint(lo, hi), rng.randint(tlo, thi)])
+    if isinstance(dt, pydsdl.FloatType):
+        if mode == "zero":
+            return 0
+        pool32 = [0x00000000, 0x80000000, 0x3F800000, 0x7F800000, 0xFF800000, 0x7FC00000, 0x477FE000, 0x477FF000, 0x47800000, 0xC7800000, 0x33800000, 0x00000001, 0x7F7FFFFF, 0x3EAAAAAB]
+        if dt.bit_length == 64:
+            return rng.choice([0, 1 << 63, 0x3FF0000000000000, 0x7FF0000000000000, 0x7FF8000000000000, 0x7FEFFFFFFFFFFFFF, 1, rng.getrandbits(64)])
+        return rng.choice(pool32 + [rng.getrandbits(32)])
+    if isinstance(dt, pydsdl.FixedLengthArrayType):
+        return [gen_value(rng, dt.element_type, mode) for _ in range(dt.capacity)]
+    if isinstance(dt, pydsdl.VariableLengthArrayType):
+        cnt = {"zero": 0, "ones": dt.capacity}.get(mode)
+        if cnt is None:
+            cnt = rng.choice([0, 1, dt.capacity, dt.capacity, rng.randint(0, dt.capacity), dt.capacity + 1, min(dt.capacity + 7, (1 << dt.length_field_type.bit_length) - 1)])
+        return {"count": cnt, "elements": [gen_value(rng, dt.element_type, mode) for _ in range(dt.capacity)]}
+    if isinstance(dt, pydsdl.CompositeType):
+        return gen_composite(rng, dt, mode)
+    raise TypeError(dt)
+
+
+def gen_composite(rng, t, mode):
+    inner = t.inner_type
+    if isinstance(inner, pydsdl.UnionType):
+        k = 0 if mode == "zero" else (len(inner.fields) - 1 if mode == "ones" else rng.choice(list(range(len(inner.fields))) + [len(inner.fields), 255]))
+        return {"_tag_": k, "v": gen_value(rng, inner.fields[k].data_type, mode) if k < len(inner.fields) else None}
+    return {f.name: gen_value(rng, f.data_type, mode) for f in inner.fields_except_padding}
+
+
+# ---------------------------------------------------------------------------------------------------------------------
+def _build_and_run(workdir: pathlib.Path, header: str, body: str, tag: str, defines=()) -> typing.Tuple[int, str, str]:
+    src = workdir / f"ppref_{tag}.c"
+    exe = workdir / f"ppref_{tag}"
+    src.write_text('#include <assert.h>\n#define NUNAVUT_ASSERT(x) assert(x)\n#include "%s"\n#include <stdio.h>\n#include <stdlib.h>\n#include <string.h>\n%s' % (header, body))
+    c = subprocess.run(["clang", "-std=c11", "-g", "-O0", "-fsanitize=address,undefined", "-fno-sanitize-recover=all", *defines, "-I", str(workdir), str(src), "-o", str(exe)], capture_output=True, text=True)
+    if c.returncode != 0:
+        return -1, "", c.stderr[:1500]
+    r = subprocess.run([str(exe)], capture_output=True, text=True, timeout=120)
+    return r.returncode, r.stdout, r.stderr[:3000]
+
+
+def witness(function: str, type_name: str, workdir, model, by: typing.Optional[dict] = None, n_cases: int = 60):
+    """bounded native search for an input on which the real generated routine disagrees with the reference codec"""
+    from vk import render
+    if workdir is None or by is None or type_name not in by:
+        return None
+    workdir = pathlib.Path(workdir)
+    t = by[type_name]
+    lang = render.language_context("c").get_target_language()
+    if getattr(t, "has_parent_service", False):  # <service>.Request / .Response live in the service's header
+        parts = t.full_namespace.split(".")
+        header = "/".join(parts[:-1] + [f"{parts[-1]}_{t.version.major}_{t.version.minor}.h"])
+    else:
+        header = "/".join(t.full_name.split(".")[:-1] + [f"{t.short_name}_{t.version.major}_{t.version.minor}.h"])
+    cn = cname(t)
+    rng = random.Random(20260926)
+    mbytes = (max(t.inner_type.bit_length_set) + 7) // 8
+    is_ser = "_serialize_" in function and "_deserialize_" not in function
+    if is_ser:
+        cases = []
+        for i in range(n_cases):
+            v = gen_composite(rng, t, "zero" if i == 0 else "ones" if i == 1 else "rand")
+            cap = rng.choice([mbytes, mbytes, mbytes, mbytes + 3, max(0, mbytes - 1), 0]) if i > 2 else mbytes
+            cases.append((v, cap))
+        body = [f"static int run(int k) {{ {cn} obj; memset(&obj, 0, sizeof obj); uint8_t* buf = NULL; size_t sz = 0; switch (k) {{"]
+        for k, (v, cap) in enumerate(cases):
+            st: typing.List[str] = []
+            set_composite(lang, t, "obj", v, st)
+            body.append(f"case {k}: {{ {' '.join(st)} sz = {cap}; buf = malloc(sz ? sz : 1); memset(buf, 0xA5, sz ? sz : 1); break; }}")
+        body.append(f"default: return 1; }} size_t cap = sz; int8_t rc = {cn}_serialize_(&obj, buf, &sz); printf(\"%d %d %zu \", k, (int)rc, rc == 0 ? sz : (size_t)0);"
+                    " if (rc == 0) { for (size_t i = 0; i < cap; i++) printf(\"%02x\", buf[i]); } printf(\"\\n\"); free(buf); return 0; }")
+        body.append(f"int main(void) {{ for (int k = 0; k < {len(cases)}; k++) {{ run(k); fflush(stdout); }} return 0; }}")
+        rc, out, err = _build_and_run(workdir, header, "\n".join(body), cn + "_ser")
+        if rc == -1:
+            return {"harness_error": err}
+        lines = {int(l.split()[0]): l.split() for l in out.splitlines() if l.strip()}
+        for k, (v, cap) in enumerate(cases):
+            erc, eb = serialize_ref(t, v, cap)
+            if k not in lines:
+                return {"input": {"object": v, "capacity_bytes": cap}, "why": f"the generated serializer aborts / is stopped by the sanitizers: {err[:600]}", "evaluations": k + 1}
+            grc, gsz = int(lines[k][1]), int(lines[k][2])
+            ghex = lines[k][3] if len(lines[k]) > 3 else ""
+            if grc != erc:
+                return {"input": {"object": v, "capacity_bytes": cap}, "why": f"returns {grc}, the specification gives {erc}", "evaluations": k + 1}
+            if erc == 0:
+                want = eb.hex() + "a5" * (cap - len(eb))
+                if gsz != len(eb) or ghex != want:
+                    return {"input": {"object": v, "capacity_bytes": cap}, "why": f"size {gsz} bytes {ghex}; the specification gives size {len(eb)} bytes {want} (0xA5 = untouched)", "evaluations": k + 1}
+        return None
+    # deserialization
+    inputs: typing.List[typing.Tuple[bytes, int]] = []
+    for i in range(n_cases):
+        v = gen_composite(rng, t, "zero" if i == 0 else "ones" if i == 1 else "rand")
+        erc, eb = serialize_ref(t, v, mbytes + 8)
+        data = eb if erc == 0 else bytes(rng.getrandbits(8) for _ in range(mbytes))
+        kind = i % 4
+        if kind == 1 and data:
+            data = data[:rng.randint(0, len(data))]
+        elif kind == 2:
+            data = bytes(b ^ (1 << rng.randint(0, 7)) if rng.random() < 0.2 else b for b in data) + bytes(rng.getrandbits(8) for _ in range(rng.randint(0, 3)))
+        elif kind == 3:
+            data = bytes(rng.getrandbits(8) for _ in range(rng.randint(0, mbytes + 2)))
+        inputs.append((data, len(data)))
+    body = [f"static int run(int k) {{ {cn}* obj = malloc(sizeof({cn})); memset(obj, 0x5A, sizeof({cn})); uint8_t* buf = NULL; size_t sz = 0; switch (k) {{"]
+    exp = []
+    for k, (data, size) in enumerate(inputs):
+        erc, ev, esz = deserialize_ref(t, data, size)
+        exp.append((erc, ev, esz))
+        arr = ", ".join(str(b) for b in data) or "0"
+        dump: typing.List[str] = []
+        if erc == 0:
+            dump_stmts(lang, t, "(*obj)", ev, dump)
+        body.append(f"case {k}: {{ static const uint8_t d_[] = {{ {arr} }}; sz = {size}; buf = malloc(sz ? sz : 1); memcpy(buf, d_, sz); int8_t rc = {cn}_deserialize_(obj, buf, &sz); "
+                    f"printf(\"%d %d %zu \", k, (int)rc, rc == 0 ? sz : (size_t)0); if (rc == 0) {{ {' '.join(dump)} }} printf(\"\\n\"); break; }}")
+    body.append("default: break; } free(buf); free(obj); return 0; }")
+    body.append(f"int main(void) {{ for (int k = 0; k < {len(inputs)}; k++) {{ run(k); fflush(stdout); }} return 0; }}")
+    rc, out, err = _build_and_run(workdir, header, "\n".join(body), cn + "_des")
+    if rc == -1:
+        return {"harness_error": err}
+    lines = {int(l.split()[0]): l.split() for l in out.splitlines() if l.strip()}
+    for k, (data, size) in enumerate(inputs):
+        erc, ev, esz = exp[k]
+        if k not in lines:
+            return {"input": {"bytes": data.hex(), "size": size}, "why": f"the generated deserializer aborts / is stopped by the sanitizers: {err[:600]}", "evaluations": k + 1}
+        grc = int(lines[k][1])
+        if grc != erc:
+            return {"input": {"bytes": data.hex(), "size": size}, "why": f"returns {grc}, the specification gives {erc}", "evaluations": k + 1}
+        if erc == 0:
+            got = [int(x) for x in lines[k][3:]]
+            want_k = flat(t, ev)
+
+            def norm(kind, x):  # every NaN pattern is one value (payload propagation is not specified)
+                if kind == "f32" and (x & 0x7F800000) == 0x7F800000 and (x & 0x007FFFFF):
+                    return 0x7FC00000
+                if kind == "f64" and (x & 0x7FF0000000000000) == 0x7FF0000000000000 and (x & 0x000FFFFFFFFFFFFF):
+                    return 0x7FF8000000000000
+                return x
+
+            want = [norm(*w) if isinstance(w, tuple) else w for w in want_k]
+            if len(got) == len(want_k):
+                got = [norm(w[0], g) if isinstance(w, tuple) else g for w, g in zip(want_k, got)]
+            if int(lines[k][2]) != esz or got != want:
+                return {"input": {"bytes": data.hex(), "size": size}, "why": f"consumed {lines[k][2]} fields {got}; the specification gives consumed {esz} fields {want}", "evaluations": k + 1}
     return None
